@@ -597,7 +597,7 @@ def fam_markers():
 
 # ------------------------------------------------------------------------------- C12 clones
 
-def moot_counter(name="mo", inner=None):
+def moot_counter(name="mo", inner=None, ninner=1):
     """moot framer using framer-, frame-, main-relative data and optionally an inner insular clone."""
     ctxs = ("enter", "exit", "recur")
     a_items = recs("a", ctxs) + [("put", "enter", 0, "cnt of framer"), ("put", "enter", 5, "lim of frame"),
@@ -605,7 +605,8 @@ def moot_counter(name="mo", inner=None):
                                  ("inc", "recur", "cnt of framer", 1),
                                  ("go", "next", [("recurred", ">=", 2, False), ("cmp", "go of framer main", "==", 1, None, False)])]
     if inner:
-        a_items.insert(len(recs("a", ctxs)), ("auxclone", inner, "mine"))
+        for _ in range(ninner):      # adjacent insular clones of the same moot in one frame
+            a_items.insert(len(recs("a", ctxs)), ("auxclone", inner, "mine"))
     b_items = recs("b", ctxs) + [("inc", "enter", "total of frame main", 1), ("done", "enter", None)]
     return dict(name=name, schedule="moot", frames=[dict(name="a", items=a_items), dict(name="b", items=b_items)])
 
@@ -648,6 +649,23 @@ def fam_clones():
                             framers=[dict(name="m", schedule="active", frames=[dict(name="f0", items=f0), dict(name="f1", items=f1),
                                                                              dict(name="f2", items=f2)])] + moots)
                 yield ("clones/rear%d/raze-%s/%s" % (nrear, who, rear_ctx), prog, dict())
+
+
+def fam_clones_rear_nested():
+    """a moot with 2 or 3 ADJACENT insular clones in one frame is reared at run time, razed (which must prune every
+    nested clone and free its name), and reared again on the next lap."""
+    ctxs = ("enter", "exit", "recur")
+    for ninner in (2, 3):
+        moots = [moot_counter("mo", inner="le", ninner=ninner), moot_leaf("le")]
+        for who in ("all", "first", "last"):
+            f0 = recs("f0", ctxs) + [("put", "enter", 1, "go of framer"), ("put", "enter", 0, "ticks of framer"),
+                                      ("rear", "enter", "mo", "f1"), ("go", "f1", [E0])]
+            f1 = recs("f1", ctxs) + [("put", "enter", 0, "total of frame"), ("go", "f2", [E1])]
+            f2 = recs("f2", ctxs) + [("raze", "enter", who, "f1"), ("go", "f0", [E0]), ("go", "f1", [E1])]
+            prog = dict(tick=0.125, inits=list(ENV_INITS),
+                        framers=[dict(name="m", schedule="active", frames=[dict(name="f0", items=f0), dict(name="f1", items=f1),
+                                                                         dict(name="f2", items=f2)])] + moots)
+            yield ("clones/rear-nested%d/raze-%s" % (ninner, who), prog, dict())
 
 
 # ------------------------------------------------------------------------------- restart (C06 / C03 / C07)
@@ -1183,3 +1201,25 @@ def fam_clone_doer_state():
     prog = dict(tick=0.125, inits=list(ENV_INITS),
                 framers=[dict(name="m", schedule="active", frames=[dict(name="f0", items=f0), dict(name="f1", items=recs("f1", ctxs))]), mo])
     yield ("clone-doer-state/rear2", prog, dict())
+
+
+def fam_clocks_rebid():
+    """worker sits in timeout / repeat frames while a boss framer bids it `run|start|ready ... at P` (a period change, or
+    the same period restated): a bid is not an outline change, so the worker's elapsed / recurred keep counting."""
+    ctxs = ("enter", "exit")
+    tick = 0.125
+    for j in (1, 2, 3):
+        for P in (0.0, 0.125, 0.25):
+            for kind in ("run", "ready", "start"):
+                for T in (0.5, 0.75):
+                    w = dict(name="w", schedule="active", period=0.0, frames=[
+                        dict(name="a", items=recs("a", ctxs) + [("timeout", T)]),
+                        dict(name="b", next="a", items=recs("b", ctxs) + [("repeat", 3)])])
+                    boss = dict(name="boss", schedule="active", frames=[
+                        dict(name="x0", items=recs("x0", ctxs) + [("go", "next", [("recurred", ">=", j, False)])]),
+                        dict(name="x1", items=recs("x1", ctxs) + [("bid", "enter", kind, ["w"], P), ("go", "next", [("recurred", ">=", 2, False)])]),
+                        dict(name="x2", items=recs("x2", ctxs) + [("bid", "enter", "run", ["w"], 0.0)])])
+                    for decl in ("bw", "wb"):
+                        yield ("clocks-rebid/j%d/P%r/%s/T%r/%s" % (j, P, kind, T, decl),
+                               dict(tick=tick, inits=[], framers=[boss, w] if decl == "bw" else [w, boss]),
+                               dict(tick=tick, T=T, N=3, clocked=()))
